@@ -428,7 +428,7 @@ def run(res, tier, lean, proof_breaks=(), build_log=""):
 
     # (b) tricks
     tjudged = []
-    stragglers = []      # runs in which the working stop() returned with a helper thread not yet ended (recorded finding D29)
+    stragglers = []      # runs in which the working stop() returned with a helper thread not yet ended (repaired defect D29)
     plans = [
         ("restart", {"lifetimes": [None, None, None, None], "threads": [[("start",), ("event",), ("event",), ("stop",)]]}),
         ("restart", {"lifetimes": [3, None, None, None], "threads": [[("start",), ("sleep", 3), ("event",), ("sleep", 2), ("stop",)]]}),
